@@ -1,5 +1,5 @@
 (* Dispatch.v — uniform entry points used by the extracted oracle. *)
-From BMC Require Import Base Prim Layers Layers2 Hmac Aes.
+From BMC Require Import Base Prim Layers Layers2 SpecLayers Hmac Aes.
 
 (* decode [bs] into a value that earlier decoded [old] (if given); the outer
    option is None when the earlier decode itself failed (the model then has no
@@ -16,3 +16,13 @@ Definition run_decode {L} (dec : L -> bytes -> res L) (zero : L) (show : L -> li
 
 Definition aes_dec (key : bytes) : bytes -> bytes := aes128_decrypt_block key.
 Definition aes_enc (key : bytes) : bytes -> bytes := aes128_encrypt_block key.
+
+(* C07 generator: a field record is obtained by decoding arbitrary bytes with
+   the model (every well-formed record arises this way); the specification's
+   encoding of that record is what the implementation must decode back *)
+Definition c07_case {L} (dec : L -> bytes -> res L) (zero : L) (show : L -> list tok)
+           (enc : L -> option bytes) (bs : bytes) : option (bytes * list tok) :=
+  match dec zero bs with
+  | Ok v => match enc v with Some e => Some (e, show v) | None => None end
+  | _ => None
+  end.
